@@ -42,15 +42,23 @@ type Op struct {
 	F []int  `json:"f,omitempty"` // feeds of a rule; F[0] = feed of a broadcast
 }
 
+// Rule is one entry of the hub's rule table as observed (names mapped back to numbers; 99 = a name
+// the harness never used).
+type Rule struct {
+	S int   `json:"s"`
+	F []int `json:"f"`
+}
+
 type Case struct {
-	Kind    string  `json:"kind"`
-	Topics  []Topic `json:"topics"` // Topics[i] belongs to client i+1
-	Ops     []Op    `json:"ops"`
-	Outs    [][]int `json:"outs"`  // per executed op: clients (sorted) the broadcast arrived on
-	Panic   bool    `json:"panic"` // the hub goroutine panicked at op len(Outs)
-	Hang    bool    `json:"hang"`  // the hub did not take op len(Outs) within the watchdog
-	Detail  string  `json:"detail,omitempty"`
-	Retries int     `json:"retries,omitempty"`
+	Kind    string   `json:"kind"`
+	Topics  []Topic  `json:"topics"` // Topics[i] belongs to client i+1
+	Ops     []Op     `json:"ops"`
+	Outs    [][]int  `json:"outs"`  // per executed op: clients (sorted) the broadcast arrived on
+	Lists   [][]Rule `json:"lists"` // per executed op other than a broadcast: Hub.Rules afterwards, sorted by stream
+	Panic   bool     `json:"panic"` // the hub goroutine panicked at op len(Outs)
+	Hang    bool     `json:"hang"`  // the hub did not take op len(Outs) within the watchdog
+	Detail  string   `json:"detail,omitempty"`
+	Retries int      `json:"retries,omitempty"`
 }
 
 func streamName(s int) string {
@@ -60,6 +68,23 @@ func streamName(s int) string {
 	return fmt.Sprintf("stream/s%d", s)
 }
 func feedName(f int) string { return fmt.Sprintf("f%d", f) }
+
+func streamNumber(name string) int {
+	for s := 0; s <= 3; s++ {
+		if streamName(s) == name {
+			return s
+		}
+	}
+	return 99
+}
+func feedNumber(name string) int {
+	for f := 1; f <= 4; f++ {
+		if feedName(f) == name {
+			return f
+		}
+	}
+	return 99
+}
 
 func (t Topic) name() string {
 	if t.Stream {
@@ -106,7 +131,15 @@ func (c Case) coq() string {
 	for i, o := range c.Outs {
 		outs[i] = ns(o)
 	}
-	return lib.Tuple(lib.List(ops), lib.List(outs), lib.Bool(c.Panic || c.Hang))
+	lists := make([]string, len(c.Lists))
+	for i, l := range c.Lists {
+		rs := make([]string, len(l))
+		for j, r := range l {
+			rs[j] = lib.Tuple(lib.N(uint64(r.S)), ns(r.F))
+		}
+		lists[i] = lib.List(rs)
+	}
+	return lib.Tuple(lib.List(ops), lib.List(outs), lib.List(lists), lib.Bool(c.Panic || c.Hang))
 }
 
 // ---------------------------------------------------------------- running a history on the real hub
@@ -305,11 +338,25 @@ func runHistory(c *Case) {
 	r.dummy = &hub.Client{Hub: r.h.Hub, Name: "barrier", Topic: "zz-barrier", Send: make(chan hub.Message, 1), Stats: hub.NewClientStats()}
 	c.Outs, c.Panic, c.Hang, c.Detail, c.Retries = nil, false, false, "", 0
 	n := 0
+	c.Lists = nil
 	for i, o := range c.Ops {
 		if !r.exec(c, o, i) || !r.barrier() {
 			break
 		}
 		n++
+		// the hub goroutine is idle between the barrier and the next operation: read its rule table
+		l := []Rule{}
+		if o.K != "B" {
+			for name, feeds := range r.h.Rules {
+				ru := Rule{S: streamNumber(name), F: []int{}}
+				for _, f := range feeds {
+					ru.F = append(ru.F, feedNumber(f))
+				}
+				l = append(l, ru)
+			}
+			sort.Slice(l, func(a, b int) bool { return l[a].S < l[b].S })
+		}
+		c.Lists = append(c.Lists, l)
 	}
 	if r.failed == "" {
 		time.Sleep(2 * time.Millisecond)
@@ -383,7 +430,7 @@ func genHistory(r *lib.Rng, kind string) Case {
 	for i := 0; i < nops; i++ {
 		var o Op
 		switch x := r.Intn(100); {
-		case x < 22:
+		case x < 26:
 			k := r.Range(1, nClients)
 			if registered[k-1] && kind != "reregister" {
 				// a client object registers once; pick one that is out, else unregister this one
@@ -403,7 +450,7 @@ func genHistory(r *lib.Rng, kind string) Case {
 			}
 			o = Op{K: "Reg", C: k}
 			registered[k-1] = true
-		case x < 37:
+		case x < 36:
 			k := r.Range(1, nClients)
 			if !registered[k-1] && !(kind == "malformed" || r.Chance(1, 6)) {
 				for j := 0; j < nClients; j++ {
@@ -415,12 +462,12 @@ func genHistory(r *lib.Rng, kind string) Case {
 			}
 			o = Op{K: "Unreg", C: k}
 			registered[k-1] = false
-		case x < 65:
+		case x < 70:
 			o = Op{K: "Add", S: stream(), F: feeds()}
 			if kind == "malformed" && r.Chance(1, 4) {
 				o.S = 0 // the reserved word
 			}
-		case x < 85:
+		case x < 88:
 			o = Op{K: "Del", S: stream()}
 		default:
 			o = Op{K: "DelAll"}
@@ -499,6 +546,26 @@ func oracle(c Case, idx int, res *lib.Result) {
 		case "DelAll":
 			rules = map[int][]int{}
 			lastRuleOp = "DelAll"
+		}
+		if o.K != "B" && i < len(c.Lists) {
+			got := c.Lists[i]
+			for _, ru := range got {
+				if ru.S == 0 {
+					bad("reserved-id-created", o.K, fmt.Sprintf("op %d (%s): the rule table holds a rule named deleteAll", i, o.String()))
+				}
+			}
+			same := len(got) == len(rules)
+			for _, ru := range got {
+				want, ok := rules[ru.S]
+				if !ok || fmt.Sprint(want) != fmt.Sprint(ru.F) {
+					same = false
+				}
+			}
+			if !same {
+				bad("rule-table-not-latest", o.K, fmt.Sprintf("op %d (%s): rule table %v, the history says %v", i, o.String(), got, rules))
+			}
+		}
+		switch o.K {
 		case "B":
 			if !wf {
 				continue
@@ -654,7 +721,7 @@ func main() {
 			}
 			cases = append(cases, c)
 		}
-		n := a.Pick(400, 6000)
+		n := a.Pick(1000, 15000)
 		for i := 0; i < n; i++ {
 			r := rng.Fork()
 			kind := "valid"
